@@ -34,6 +34,8 @@ struct MacroDef {
     roles: Vec<Role>,
     body: Vec<Node>,
     end_long: bool,
+    /// sets or tests #define flags while it is expanded
+    stateful: bool,
 }
 
 fn param_expr(n: usize) -> E {
@@ -97,6 +99,8 @@ struct G<'a> {
     names: Names,
     marker: i64,
     equs: Vec<(String, i64)>,
+    /// #define flags that macro bodies set and test while they are expanded
+    flags: Vec<String>,
 }
 
 impl<'a> G<'a> {
@@ -114,6 +118,11 @@ impl<'a> G<'a> {
         let mut roles: Vec<Role> = vec![];
         let mut body: Vec<Node> = vec![];
         let n_lines = 1 + self.rng.usize(5);
+        // Bodies that set or test #define flags are only ever called from the top level and call no
+        // other macro: the tool decides all conditionals of a body before it expands the calls nested in
+        // it (known finding macro/state/*), which would otherwise drown every other signal.
+        let stateful = self.rng.chance(1, 3);
+        let callable: Vec<&MacroDef> = callable.iter().filter(|m| !m.stateful).collect();
         let mut param = |roles: &mut Vec<Role>, rng: &mut Rng, r: Role| -> usize {
             // reuse an existing parameter of the same role sometimes, up to ten parameters
             let same: Vec<usize> = roles.iter().enumerate().filter(|(_, x)| **x == r).map(|(i, _)| i).collect();
@@ -128,7 +137,13 @@ impl<'a> G<'a> {
             }
         };
         for _ in 0..n_lines {
-            let choice = self.rng.below(14);
+            let mut choice = self.rng.below(17);
+            if !stateful && choice >= 14 {
+                choice = self.rng.below(14);
+            }
+            if stateful && choice == 9 {
+                choice = 14 + self.rng.below(3);
+            }
             match choice {
                 0 | 1 => {
                     let a = param(&mut roles, self.rng, Role::RegHigh);
@@ -210,7 +225,7 @@ impl<'a> G<'a> {
                 }
                 9 if !callable.is_empty() => {
                     // nested call passing parameters on
-                    let callee = &callable[self.rng.usize(callable.len())];
+                    let callee = callable[self.rng.usize(callable.len())];
                     let mut args = vec![];
                     let mut ok = true;
                     for r in &callee.roles {
@@ -234,7 +249,37 @@ impl<'a> G<'a> {
                     body.push(Node::Seg(Seg::Data));
                     body.push(Node::Reserve { label: None, n: E::Lit(1 + self.rng.below(4) as i64, 0) });
                     body.push(Node::Seg(Seg::Code));
-                    body.push(self.marker());
+                    // (sometimes the switch back is the last thing the body does)
+                    if self.rng.chance(2, 3) {
+                        body.push(self.marker());
+                    }
+                }
+                14 => {
+                    // emit-once idiom: what the body assembles depends on state an earlier expansion left behind
+                    self.marker += 1;
+                    let flag = format!("ONCE_FLAG_{}", self.marker);
+                    let m1 = self.marker();
+                    let m2 = self.marker();
+                    body.push(Node::Cond { arms: vec![Arm { cond: Cond::NDef(flag.clone()), body: vec![Node::Define(flag), m1] }], else_body: if self.rng.chance(2, 3) { Some(vec![m2]) } else { None } });
+                }
+                15 => {
+                    // a flag that some other macro sets
+                    if self.flags.is_empty() || self.rng.chance(1, 3) {
+                        self.marker += 1;
+                        self.flags.push(format!("SHARED_FLAG_{}", self.marker));
+                    }
+                    let flag = self.rng.pick(&self.flags).clone();
+                    let m1 = self.marker();
+                    let m2 = self.marker();
+                    let cond = if self.rng.chance(1, 2) { Cond::Def(flag) } else { Cond::NDef(flag) };
+                    body.push(Node::Cond { arms: vec![Arm { cond, body: vec![m1] }], else_body: Some(vec![m2]) });
+                }
+                16 => {
+                    if !self.flags.is_empty() {
+                        let flag = self.rng.pick(&self.flags).clone();
+                        body.push(Node::Define(flag));
+                        body.push(self.marker());
+                    }
                 }
                 11 => {
                     let b = param(&mut roles, self.rng, Role::Byte);
@@ -242,7 +287,9 @@ impl<'a> G<'a> {
                         body.push(Node::Seg(Seg::Eeprom));
                         body.push(Node::Data { label: None, width: 1, ops: vec![DataOp::E(param_expr(b)), DataOp::E(E::Lit(self.rng.range(0, 255), 0))] });
                         body.push(Node::Seg(Seg::Code));
-                        body.push(self.marker());
+                        if self.rng.chance(2, 3) {
+                            body.push(self.marker());
+                        }
                     }
                 }
                 _ => body.push(self.marker()),
@@ -251,7 +298,7 @@ impl<'a> G<'a> {
         if body.is_empty() {
             body.push(self.marker());
         }
-        MacroDef { name, roles, body, end_long: self.rng.chance(1, 3) }
+        MacroDef { name, roles, body, end_long: self.rng.chance(1, 3), stateful }
     }
 }
 
@@ -261,7 +308,7 @@ pub struct Prog {
 }
 
 pub fn gen(rng: &mut Rng) -> Prog {
-    let mut g = G { rng, names: Names::new(), marker: 0, equs: vec![] };
+    let mut g = G { rng, names: Names::new(), marker: 0, equs: vec![], flags: vec![] };
     let mut nodes = vec![Node::Comment("C09 macro program".into())];
     for _ in 0..g.rng.below(3) {
         let n = g.names.fresh("eq", g.rng);
@@ -314,7 +361,17 @@ pub fn gen(rng: &mut Rng) -> Prog {
                 _ => {}
             }
         }
-        nodes.push(Node::MacroCall { name, args });
+        nodes.push(Node::MacroCall { name: name.clone(), args: args.clone() });
+        // the very same call again (same name spelling, same argument text), sometimes after another call
+        if negative.is_none() && g.rng.chance(1, 3) {
+            if g.rng.chance(1, 2) {
+                let d2 = &defs[g.rng.usize(defs.len())];
+                let equs = g.equs.clone();
+                let a2: Vec<Opnd> = d2.roles.iter().map(|r| arg_for(*r, g.rng, &equs)).collect();
+                nodes.push(Node::MacroCall { name: d2.name.clone(), args: a2 });
+            }
+            nodes.push(Node::MacroCall { name, args });
+        }
     }
     nodes.push(g.marker());
     nodes.extend(late);
@@ -443,6 +500,16 @@ fn probes(ctx: &Ctx) {
         ("macro/index/displacement", ".macro m\nldd @0, @1\n.endm\n m r5, Y+63\n m r6, Z+(1+2)\n", "ldd r5, Y+63\nldd r6, Z+3\n"),
         ("macro/segment-switch/returns-to-code", ".macro m\nldi r16, 1\n.dseg\n.byte 2\n.cseg\nldi r17, 2\n.endm\n m\n m\nldi r18, 3\n", "ldi r16, 1\nldi r17, 2\nldi r16, 1\nldi r17, 2\nldi r18, 3\n.dseg\n.byte 4\n"),
         ("macro/ten-parameters", ".macro m\n.db @0,@1,@2,@3,@4,@5,@6,@7,@8,@9\n.endm\n m 1,2,3,4,5,6,7,8,9,10\n", ".db 1,2,3,4,5,6,7,8,9,10\n"),
+        ("macro/emit-once-idiom", ".macro once\n.ifndef ONCE_DONE\n#define ONCE_DONE\n.dw 0x1111\n.else\n.dw 0x2222\n.endif\n.endm\n once\n once\n once\n", ".dw 0x1111\n.dw 0x2222\n.dw 0x2222\n"),
+        ("macro/flag-set-between-identical-calls", ".macro tflag\n.ifdef FAST\n.dw 1\n.else\n.dw 2\n.endif\n.endm\n.macro setfast\n#define FAST\n.endm\n tflag\n setfast\n tflag\n", ".dw 2\n.dw 1\n"),
+        // one root cause, two shapes: every conditional of a file or body is decided while that text is parsed,
+        // macro calls in it are expanded afterwards
+        ("macro/state/conditional-after-nested-call-sees-stale-defines", ".macro inner\n#define INNER_RAN\n.endm\n.macro outer\n inner\n.ifdef INNER_RAN\n.dw 1\n.else\n.dw 2\n.endif\n.endm\n outer\n", ".dw 1\n"),
+        ("macro/state/segment-left-by-body-not-seen-by-following-org", ".macro toee\n.eseg\n.endm\n nop\n toee\n.db 1\n.org 0x10\n.db 2\n", " nop\n.eseg\n.db 1\n.org 0x10\n.db 2\n"),
+        ("macro/state/toplevel-conditional-after-call-sees-stale-defines", ".macro setter\n#define SETTER_RAN\n.endm\n setter\n.ifdef SETTER_RAN\n.dw 1\n.else\n.dw 2\n.endif\n", ".dw 1\n"),
+        ("macro/pc-relative-in-repeated-one-line-body", ".macro dly\n rjmp pc+1\n.endm\n dly\n dly\n dly\n", " rjmp pc+1\n rjmp pc+1\n rjmp pc+1\n"),
+        ("macro/body-starting-with-eseg", ".macro ee\n.eseg\n.db 1,2,3\n.dw 0x1234\n.cseg\n.endm\n nop\n ee\n nop\n", " nop\n.eseg\n.db 1,2,3\n.dw 0x1234\n.cseg\n nop\n"),
+        ("macro/body-starting-with-eseg-called-first", ".macro ee\n.eseg\n.db 1,2,3\n.cseg\n.endm\n ee\n nop\n", ".eseg\n.db 1,2,3\n.cseg\n nop\n"),
         ("macro/call-before-definition", " late r20\n.macro late\nldi @0, 7\n.endm\n", "ldi r20, 7\n"),
     ];
     for (sig, with, plain) in cases {
@@ -478,7 +545,7 @@ pub fn run(ctx: &Ctx) -> i32 {
     });
     fw::finish(
         ctx,
-        "programs with 1-4 macro definitions (0-10 parameters; bodies of ldi/mov/ld/st/ldd/std/out with register, index and displacement parameters, .dw/.db on parameters incl. inside larger expressions, .if on a parameter, nested calls passing parameters on, .dseg/.eseg switches returning to .cseg; names in mixed case, .endm/.endmacro) and 1-6 calls in any letter case, before or after the definition, with registers, all nine index forms, Y/Z displacements and random expressions of every precedence as arguments; 1 in 6 programs calls an undefined macro or omits a used argument (must fail); fixed probes for the argument shapes the statement names; distinct_nontrivial = distinct program texts",
+        "programs with 1-4 macro definitions (0-10 parameters; bodies of ldi/mov/ld/st/ldd/std/out with register, index and displacement parameters, .dw/.db on parameters incl. inside larger expressions, .if on a parameter, nested calls passing parameters on, .dseg/.eseg switches returning to .cseg, emit-once blocks (.ifndef F / #define F / ... / .else) and #define flags set by one macro and tested by another; names in mixed case, .endm/.endmacro) and 1-6 calls in any letter case, before or after the definition, (1 in 3 repeated verbatim, directly or after another call) with registers, all nine index forms, Y/Z displacements and random expressions of every precedence as arguments; 1 in 6 programs calls an undefined macro or omits a used argument (must fail); fixed probes for the argument shapes the statement names; distinct_nontrivial = distinct program texts",
         &[
             "hand expansion is done on the IR (refmodel/layout.rs::expand_macros): an argument is substituted as a value (parenthesised when it lands inside a larger expression)",
             "a parameter used inside a larger expression is only called with atomic, parenthesised or function-call arguments; labels and messages inside bodies are not generated",
